@@ -178,6 +178,12 @@ def build_bf3(spec, env):
     comps = []
     for c in spec["components"]:
         desc = {int(t): bytes.fromhex(v) for t, v in c["desc"]}
+        if c.get("tagless"):
+            # marked after construction through the public attribute
+            comp = env.bf3file.Bf3Component(desc, make_blob(c["blob"]), c["alen"])
+            comp.encrypt_by_session_key = True
+            comps.append(comp)
+            continue
         comps.append(env.bf3file.Bf3Component(desc, make_blob(c["blob"]), c["alen"],
                                               encrypt_by_session_key=c["enc"]))
     if spec.get("alias_first") and comps:
